@@ -17,6 +17,7 @@ FUNCTIONS['kripke'] = ['Kripke.__init__', 'Kripke.labels', 'Kripke.states', 'Kri
 FUNCTIONS['ctl'] = ['_checkAtomicProposition', '_checkNot', '_checkEX', '_checkOr', '_checkStateFormula', '_checkEU', '_checkEG', 'modelcheck']
 FUNCTIONS['rewrite'] = ['LNot'] + ['%s.get_equivalent_restricted_formula' % c for c in
                                    ('AtomicProposition', 'Not', 'A', 'E', 'X', 'F', 'G', 'Or', 'And', 'Imply', 'U', 'R')]
+FUNCTIONS['rewrite'] += ['EX', 'EG', 'EU', 'CTL.A.get_equivalent_restricted_formula', 'CTL.E.get_equivalent_restricted_formula']
 FUNCTIONS['bdd'] = ['find_isomorph', 'BDDNode.__reset__', 'BDDNonTerminalNode.__reset__', 'BDDNonTerminalNode.__new__']
 PROPERTY_FUNCTIONS = {
     'C10': ['Parser.__call__'],
@@ -41,7 +42,8 @@ TRUSTED = {
           'pyvc VC generator (vf/pyvc) - mitigated by planted-defect self-test and vacuity probes'],
     'C13': [],
     'C01': ['documented CTL semantics of the restricted operators in fixpoint form (vf/pyvc/formula.py semantic_axioms; CGP00 ch.4; TB1-TB3) - audited end to end by the bounded check against the path-based reference',
-            'contract of get_equivalent_restricted_formula (C05, bounded) and injectivity of printing (C09, bounded): memo keys are formula trees',
+            'contract of get_equivalent_restricted_formula used as an axiom on sat (same meaning, documented grammar kept); C05 proves it body by body in the path semantics '
+            '(CTL.A, CTL.E and the inherited CTL* bodies), the two axiomatisations are linked only by the definition sat(f) = states whose paths/points satisfy f; injectivity of printing (C09, bounded): memo keys are formula trees',
             '_checkEG is proved GIVEN (a) the ASSUMED contract of compute_SCCs = the statement of C12 over rtc (body out of the generator\'s subset; C12 checks it bounded), '
             '(b) the greatest-fixpoint principle of E G phi (second-order schema, trusted semantics) instantiated syntactically at the returned set, '
             '(c) CGP00 Lemma 4.1, completeness half, for finite structures: every state of E G phi reaches through phi-states a node on a phi-cycle (finite_structure_cycle_lemma), '
@@ -53,7 +55,10 @@ TRUSTED = {
             'induction hypothesis = the contract itself for recursive calls on subformulas (partial correctness)',
             'constructors called by the rewriting bodies do not raise (typing of the rebuilt formula: C08, bounded) and wrap Python booleans as Bool',
             'clone() returns an equal tree (C11, bounded); formulas are identified with their trees',
-            'CTL.A/CTL.E rewriting bodies (AU, ER need least-witness reasoning) and receiver-class differences (Lang) are NOT under proof: bounded only',
+            'CTL.A / CTL.E rewriting bodies (CTL/language.py) and the shortcuts EX/EG/EU are under proof for receivers that satisfy the documented CTL grammar '
+            '(class invariant of CTL objects: C08, bounded); A(f U g) and E(f R g) use the least-position principle (well-ordering of the naturals, trusted mathematics) through one cut lemma each',
+            'CTL restricted syntax (true, not, or, atoms, E with X/U/G) as elimination/introduction axioms (logics.rst); inherited bodies Not/Or/And/Imply/AtomicProposition are proved to stay inside it on CTL receivers',
+            'receiver-class differences of LTL (Lang lookup; KF-C05-1) are NOT under proof: bounded only',
             'one verification per body: the receiver is any formula with the class tag and arity of the defining class'],
     'C10': ['ASSUMED external contract of lark.Lark.parse: returns the transformer value or raises lark UnexpectedToken/UnexpectedCharacters '
             '(mutually exclusive) with pos_in_stream in [0, len(string)]; which strings each grammar accepts is data interpreted by Lark: bounded only',
